@@ -3,7 +3,7 @@
 Generated: pairs of virtual trees (vlib.vfs) in which every inode has exactly one path, snapshots
 taken by the real DirectorySnapshot through its injectable stat/listdir.
 Oracle: reference diff keyed by (ino, dev) + the statement's set equation + list discipline +
-self-diff + argument-swap + ignore_device laws.
+self-diff + argument-swap + ignore_device laws, for the constructor, the `-` operator and the ContextManager.
 """
 
 from __future__ import annotations
@@ -160,6 +160,20 @@ def check_pair(t1, t2, recursive):
         raise Violation(f"diff against the empty snapshot is not 'everything created': {LE} for paths {sorted(s2.paths)}", "empty-snapshot")
     if any(k2[p] != "d" for p in LE["dirs_created"]) or any(k2[p] != "f" for p in LE["files_created"]):
         raise Violation(f"diff against the empty snapshot puts an entry into the wrong file/dir list: {LE}", "empty-snapshot")
+    # the context manager is a third way to the same diff: snapshot on entry, snapshot on exit
+    v = vfs.VFS(t1, root)
+    cm = DirectorySnapshotDiff.ContextManager(root, recursive=recursive, stat=v.stat, listdir=v.listdir)
+    with cm:
+        v.tree = dict(t2)
+    if {k: sorted(map(repr, x)) for k, x in _lists(cm.diff).items()} != {k: sorted(map(repr, x)) for k, x in L.items()}:
+        raise Violation(f"DirectorySnapshotDiff.ContextManager gives {_lists(cm.diff)}, the constructor {L}", "context-manager")
+    if len({x[1] for x in e1.values()}) == len(e1):
+        v = vfs.VFS(t1, root)
+        cm = DirectorySnapshotDiff.ContextManager(root, recursive=recursive, stat=v.stat, listdir=v.listdir, ignore_device=True)
+        with cm:
+            v.tree = {r: (x[0], x[1], x[2] + 10, x[3], x[4]) for r, x in t1.items()}
+        if any(_lists(cm.diff).values()):
+            raise Violation(f"ContextManager(ignore_device=True): a pure change of device id is reported as {_lists(cm.diff)}", "ignore-device")
     # (e) argument swap
     r_ = DirectorySnapshotDiff(s2, s1)
     R = _lists(r_)
